@@ -96,6 +96,9 @@ impl<'r, 'gc> Cb<'r, 'gc> {
             self.ex.viol("C01", "M-live", format!("{}: object {} read back with kind {:?}, stored as {:?}", whence, id, p.kind(), o.kind));
             return false;
         }
+        if o.poisoned {
+            return true;
+        }
         // now it is safe (per registry) to dereference
         if let Some(t) = p.token_id() {
             if t != id {
@@ -158,6 +161,9 @@ impl<'r, 'gc> Cb<'r, 'gc> {
         while let Some(id) = stack.pop() {
             let p = self.ptrs[&id];
             let o = self.ex.w.objs[&id].clone();
+            if o.poisoned {
+                continue;
+            }
             for s in 0..o.strong.len() {
                 let real = p.get_strong(s);
                 if !self.cmp_slot(real, o.strong[s], &format!("{}.s{}", id, s), &mut stack) {
@@ -430,6 +436,10 @@ impl<'r, 'gc> Cb<'r, 'gc> {
 
     fn do_alloc(&mut self, id: Id, kind: Kind, n: u8, init: &[Option<Id>]) {
         let a = self.a;
+        if self.ex.w.objs.contains_key(&id) {
+            self.ex.stats.inc("op_skipped");
+            return;
+        }
         let ns = kind.n_strong(n as usize);
         let mut real_init: Vec<Slot<'gc>> = Vec::with_capacity(ns);
         let mut model_init: Vec<Option<Id>> = Vec::with_capacity(ns);
@@ -468,6 +478,7 @@ impl<'r, 'gc> Cb<'r, 'gc> {
             drops: 0,
             freed: false,
             born_at: self.ex.op_index,
+            poisoned: false,
         };
         if let Some(old) = self.ex.w.by_addr.insert(addr, id) {
             self.ex.viol("C01", "M-live", format!("fresh object {} allocated at the address of still-allocated object {}", id, old));
@@ -512,6 +523,27 @@ impl<'r, 'gc> Cb<'r, 'gc> {
             MOp::Burst { n, kind, first_id } => {
                 for i in 0..*n {
                     self.do_alloc(first_id + i, *kind, 0, &[]);
+                }
+            }
+            MOp::Chain { n, first_id, slot } => {
+                for i in 0..*n {
+                    let head = self.ex.w.strong_slot(a, Ref::Root, *slot as usize).flatten();
+                    if let Some(h) = head {
+                        if !self.ptrs.contains_key(&h) {
+                            // read the head straight from the real root (checked like any other pointer)
+                            let real = self.root_ref().and_then(|r| r.inner.strong[*slot as usize]);
+                            match real {
+                                Some(p) if self.check_ptr(p, h, "root slot") => {
+                                    self.ptrs.insert(h, p);
+                                }
+                                _ => break,
+                            }
+                        }
+                    }
+                    self.do_alloc(first_id + i, Kind::RCell, 0, &[head]);
+                    if !self.store_strong(Ref::Root, *slot, Some(first_id + i), 0, false) {
+                        break;
+                    }
                 }
             }
             MOp::SetS { p, slot, c, mode, thin } => {
@@ -697,6 +729,13 @@ impl<'r, 'gc> Cb<'r, 'gc> {
                 self.note_resurrected(child, was_dead);
                 self.ex.stats.inc("resurrect_strong");
             }
+            MOp::LeakBorrow { o } => {
+                if let Some(Ptr::RCell(g)) = self.resolve(*o) {
+                    std::mem::forget(g.borrow_mut(self.mc));
+                    self.ex.w.objs.get_mut(o).unwrap().poisoned = true;
+                    self.ex.stats.inc("leaked_borrows");
+                }
+            }
             MOp::Panic => return Err(PanicNow),
         }
         Ok(())
@@ -722,6 +761,9 @@ impl<'r, 'gc> Cb<'r, 'gc> {
         if bad {
             self.ex.viol("C03", "M-xor", format!("pointer to object {} obtained during this callback is no longer valid at callback end", id));
             return false;
+        }
+        if o.poisoned {
+            return true;
         }
         if let Some(t) = p.token_id() {
             if t != id {
@@ -848,6 +890,7 @@ pub fn clone_handle(w: &mut World, handles: &mut BTreeMap<u32, HandleAny>, stats
     let Some(real) = handles.get(&h) else { return };
     let c = real.clone_h();
     handles.insert(new, c);
+    w.handle_log.push((w.cur_op, h, Some(new), hm.a));
     w.handles.insert(new, hm.clone());
     stats.inc("handle_clones");
 }
@@ -859,6 +902,7 @@ pub fn drop_handle(w: &mut World, handles: &mut BTreeMap<u32, HandleAny>, stats:
     }
     hm.live = false;
     let a = hm.a;
+    w.handle_log.push((w.cur_op, h, None, a));
     let real = handles.remove(&h);
     drop(real);
     w.dirty(a);
